@@ -194,7 +194,9 @@ Step(st, s, x, d) ==
                              THEN (IF s.c > 0 THEN R(<<x>>, [s EXCEPT !.c = s.c - 1], FALSE) ELSE R(<<>>, s, TRUE))
                            ELSE IF s.c > 0 THEN R(<<x>>, [s EXCEPT !.c = s.c - 1], s.c = 1)   \* reduced WITH the n-th element
                            ELSE R(<<>>, s, TRUE)
-    [] st.op = "takewhile" -> IF Truthy(Apply1(st.f, x)) THEN R(<<x>>, s, FALSE) ELSE R(<<>>, s, TRUE)
+    [] st.op = "takewhile" -> IF s.c = 0 /\ Truthy(Apply1(st.f, x)) THEN R(<<x>>, s, FALSE)
+                              ELSE R(<<>>, [s EXCEPT !.c = 1], TRUE)       \* over for good: what the completion of a stage above
+                                                                          \* still hands down is not looked at again
     [] st.op = "takenth"   -> R(IF s.c = 0 THEN <<x>> ELSE <<>>, [s EXCEPT !.c = (s.c + 1) % st.n], FALSE)
     [] st.op = "drop"      -> IF s.c > 0 THEN R(<<>>, [s EXCEPT !.c = s.c - 1], FALSE) ELSE R(<<x>>, s, FALSE)
     [] st.op = "dropwhile" -> IF (s.c = 0 \/ Mutant = "dropwhileretest") /\ Truthy(Apply1(st.f, x)) THEN R(<<>>, s, FALSE)
@@ -249,12 +251,13 @@ InitStates(p) == [k \in 1..Len(p) |-> Init0(p[k])]
 (* the machine as a function (used for the as-built predictions): input consumed until reduced / the end *)
 RECURSIVE RunFrom(_, _, _, _, _, _)
 RunFrom(p, ss, s, i, acc, d) ==
-  IF i > Len(s) THEN [ss |-> ss, out |-> acc]
+  IF i > Len(s) THEN [ss |-> ss, out |-> acc, n |-> Len(s)]
   ELSE LET a == One(p, ss, 1, s[i], d) IN
-       IF a.red THEN [ss |-> a.ss, out |-> acc \o a.out] ELSE RunFrom(p, a.ss, s, i + 1, acc \o a.out, d)
-MachineOut(p, s, d) ==
+       IF a.red THEN [ss |-> a.ss, out |-> acc \o a.out, n |-> i] ELSE RunFrom(p, a.ss, s, i + 1, acc \o a.out, d)
+MachineRun(p, s, d) ==
   LET r == RunFrom(p, InitStates(p), s, 1, <<>>, d)
-  IN IF DevNoCompl \in d THEN r.out ELSE r.out \o FlushFrom(p, r.ss, 1, d).out
+  IN [out |-> IF DevNoCompl \in d THEN r.out ELSE r.out \o FlushFrom(p, r.ss, 1, d).out, pulls |-> r.n]
+MachineOut(p, s, d) == MachineRun(p, s, d).out
 
 (* ------------------------------ the process -------------------------------------------- *)
 (* The input is revealed one element at a time.  In mode "exh" the environment chooses every next      *)
@@ -333,7 +336,7 @@ Tails(n) == UNION {[1..k -> UnivSet(P)] : k \in 1..n}
 ReducedSound == (Mode = "exh" /\ completed = 1 /\ wt /\ reduced /\ cur < MaxLen) =>
                    \A t \in Tails(MaxLen - cur) : out = RefPipe(P, input \o t, {})
 (* the machine written as a function (used for the as-built predictions) is the same machine *)
-FunctionalAgrees == (completed = 1 /\ wt) => out = MachineOut(P, Whole, {})
+FunctionalAgrees == (completed = 1 /\ wt) => LET r == MachineRun(P, Whole, {}) IN out = r.out /\ pulls = r.pulls
 Terminal == (~ENABLED Next) => completed = 1                            \* every run ends, and ends completed
 CompletedOnce == completed \in {0, 1}
 Quiescent == [][completed = 1 => FALSE]_vars                            \* nothing happens after completion
@@ -365,13 +368,17 @@ Applicable(p) == (IF HasOp(p, {"distinct"}) THEN {DevDistinct} ELSE {})
             \cup (IF HasOp(p, {"dedupe"}) THEN {DevDedupe} ELSE {})
             \cup (IF HasOp(p, {"partall", "partby"}) THEN {DevNoCompl} ELSE {})
 OutUnder(fc, p, s, d) == IF fc = "lazy" THEN RefPipe(p, s, d) ELSE MachineOut(p, s, d)
-(* the application forms fall into three classes; per class the sets of deviations that can show in it, smallest first *)
+PullsUnder(p, s, d) == MachineRun(p, s, d \ {DevDedupe}).pulls
+(* the application forms fall into three classes; per class the sets of deviations that can show in it, smallest first. *)
+(* A prediction is written out when it differs from what is required in the result or in what is consumed.              *)
 Subsets3(a, b, c) == <<{a}, {b}, {c}, {a, b}, {a, c}, {b, c}, {a, b, c}>>
 AltCands == [i \in 1..7 |-> <<"lazy", Subsets3(DevDistinct, DevVecEq, DevDedupe)[i]>>]
          \o [i \in 1..7 |-> <<"xf", Subsets3(DevDistinct, DevVecEq, DevNoCompl)[i]>>]
          \o [i \in 1..7 |-> <<"edu", Subsets3(DevDistinct, DevVecEq, DevNoCompl)[i]>>]
-Alts(p, s) == LET sel == SelectSeq(AltCands, LAMBDA c : c[2] \subseteq Applicable(p) /\ OutUnder(c[1], p, s, c[2]) # out)
-              IN [i \in 1..Len(sel) |-> [fc |-> sel[i][1], devs |-> sel[i][2], out |-> EncSeq(OutUnder(sel[i][1], p, s, sel[i][2]))]]
+Alts(p, s) == LET sel == SelectSeq(AltCands, LAMBDA c : c[2] \subseteq Applicable(p)
+                                     /\ (OutUnder(c[1], p, s, c[2]) # out \/ PullsUnder(p, s, c[2]) # pulls))
+              IN [i \in 1..Len(sel) |-> [fc |-> sel[i][1], devs |-> sel[i][2], out |-> EncSeq(OutUnder(sel[i][1], p, s, sel[i][2])),
+                                         minp |-> PullsUnder(p, s, sel[i][2])]]
 
 (* one line per (pipeline, input); steps[k] = how many elements stage k was handed before completion,      *)
 (* stepsc[k] = including those that completion handed down.                                               *)
